@@ -13,6 +13,9 @@
 (*   G  management: an entry for y at any of own / two BOMs / parent /     *)
 (*      parent's BOM / grandparent, the dependency on y declared by the    *)
 (*      POM, its parent or grandparent, version omitted or literal         *)
+(*   GC a dependency inherited from the parent / grandparent next to an    *)
+(*      own one on the same group and artifact with another classifier or  *)
+(*      type: two artifacts                                                *)
 (*   GK management keys: entries for jar / war / classifier, all orders    *)
 (*   K  conflict keys: group, classifier, type (omitted/explicit) pairs    *)
 (*   R  repositories: every POM served by the first, the second, both or   *)
@@ -80,6 +83,9 @@ Tags(ph, u, rs, op, alt, d, allowed) ==
    \cup {"inherited-dep" : i \in {i \in kept : seq[i].x.lvl > 1}}
    \cup {"inherited-dep-child-mgmt" : i \in {i \in kept : seq[i].x.lvl > 1 /\ (seq[i].x.fv \/ seq[i].x.fs)
                                                         /\ seq[i].x.m # <<>> /\ seq[i].x.m[1].lvl < seq[i].x.lvl}}
+   \cup {"inherited-next-to-own-other-key" : i \in {i \in kept : seq[i].x.lvl > 1 /\ \E j \in kept :
+                /\ seq[j].x.lvl = 1 /\ Len(seq[j].path) = Len(seq[i].path) /\ ParentPath(seq[j].path) = ParentPath(seq[i].path)
+                /\ seq[j].g = seq[i].g /\ seq[j].a = seq[i].a /\ KeyOf(seq[j]) # KeyOf(seq[i])}}
    \cup {"inherits-group-version" : i \in {i \in kept : seq[i].ok /\ PomOf(u, IdOf(seq[i])).inh}}
    \cup {"optional-cut" : i \in {i \in kept : \E k \in DOMAIN deps(i) : deps(i)[k].d.o = "true"}}
    \cup {"cut-does-not-compete" : i \in {i \in kept : \E k \in DOMAIN deps(i) :
@@ -213,6 +219,24 @@ PickGB ==
                              Bom("bp", GE(o3)), Bom("b2", GE(o2)),
                              Jar("y", "1", <<>>, <<>>), Jar("y", "2", <<>>, <<>>)>>), <<R("x", "1", "test")>>)
 
+(* GC: what a POM inherits and what it declares itself are different artifacts as soon as classifier or type differ *)
+(* (the same key on both levels would be a re-declaration, which is outside the supported subset)                 *)
+GCVar == {[c |-> c, t |-> t] : c \in {<<>>, <<"s">>}, t \in {"", "jar", "war"}}
+EffT(t) == IF t = "" THEN "jar" ELSE t
+PickGC ==
+    /\ phase = "start"
+    /\ \E kp \in GCVar, kx \in GCVar, at \in {"p", "gp"}, first \in BOOLEAN :
+        /\ <<kp.c, EffT(kp.t)>> # <<kx.c, EffT(kx.t)>>
+        /\ ~(kp.t = "war" /\ kp.c # <<>>) /\ ~(kx.t = "war" /\ kx.c # <<>>)
+        /\ LET own == <<DK(G, "y", kx.c, kx.t, "1")>>
+               other == <<D("z", "1", "", "")>>
+               inh == <<DK(G, "y", kp.c, kp.t, "1")>>
+           IN Case("GC", Univ(<<P("x", "1", "jar", <<I("p", "1")>>, FALSE, <<>>, IF first THEN own \o other ELSE other \o own),
+                                P("p", "1", "pom", <<I("gp", "1")>>, FALSE, <<>>, IF at = "p" THEN inh ELSE <<>>),
+                                P("gp", "1", "pom", <<>>, FALSE, <<>>, IF at = "gp" THEN inh ELSE <<>>),
+                                Jar("y", "1", <<>>, <<D("w", "1", "", "")>>), Jar("z", "1", <<>>, <<>>), Jar("w", "1", <<>>, <<>>)>>),
+                   <<R("x", "1", "compile")>>)
+
 (* GK: the management key is group, artifact, classifier, type *)
 GKEntries == {<<MgK("y", <<>>, "", "1"), MgK("y", <<>>, "war", "2"), MgK("y", <<"s">>, "jar", "3")>>,
               <<MgK("y", <<>>, "war", "2"), MgK("y", <<"s">>, "", "3"), MgK("y", <<>>, "jar", "1")>>,
@@ -274,7 +298,7 @@ PickT ==
 
 ---------------------------------------------------------------------------
 Init == phase = "start" /\ U = <<>> /\ roots = <<>> /\ res = <<>>
-Next == PickM \/ GrowM \/ PickMX \/ PickS \/ PickS2 \/ PickG \/ PickGBad \/ PickGB \/ PickGK \/ PickK \/ PickR \/ PickT
+Next == PickM \/ GrowM \/ PickMX \/ PickS \/ PickS2 \/ PickG \/ PickGBad \/ PickGB \/ PickGC \/ PickGK \/ PickK \/ PickR \/ PickT
 Spec == Init /\ [][Next]_vars
 
 ---------------------------------------------------------------------------
